@@ -30,14 +30,14 @@ SPEC = {
     "native_replay": {"c42_known_rejected_2": native_rejected_demo,
                       "c42_rejected_2_paths": runner.make_native_replay("h-slice", "paths_consistent_in_all_small_rejection_histories", "every 2-call history of the harness' input class (paths of 1..=3 components over two names, one rejected push and/or push_directory), replayed natively through the sliced source")},
     "functions": ["gix_fs::Stack::{new, make_relative_path_current, current, current_relative} - the verbatim text of gix-fs/src/stack.rs and the Stack struct of gix-fs/src/lib.rs, regenerated from /repo on every run and compiled against a shim of the std::path / std::io items it uses"],
-    "bounds": "histories of 2 (3 thorough) calls; relative paths of 1..=3 components over two distinct names; empty root",
+    "bounds": "histories of 1 and 2 calls (3 calls: 28 GB, in no tier); relative paths of 1..=3 components over two distinct names; empty root",
     "outside": ["std::path semantics themselves (component splitting, separators, prefixes): replaced by the shim, where a path is a sequence of component ids",
                 "the delegates of gix-worktree (attribute/ignore stacks) and their I/O", "the notification balance in histories with rejected pushes, beyond being recorded as known finding C42-F10 (path consistency in those histories IS checked)", "longer histories and deeper paths",
                 "paths that are used as a file in one call and as a directory in another (excluded by the function's documented precondition)"],
     "assumptions": ["the shim (harness/h-slice/src/c42_shim.rs.in) implements components()/push()/pop()/as_os_str().is_empty()/== with std's meaning for normalized relative paths",
                     "paths are terminal (documented precondition of make_relative_path_current)"],
     "manifest": {
-        "text": "gix_fs::Stack over real std::path cannot be executed symbolically within reach (measured). The check therefore compiles the verbatim source text of stack.rs - re-read from /repo on every run - against a 100-line shim in which a path is a short sequence of component ids, and the solver explores every history of 2 (3) calls over all such paths: after each successful call the current path is the last one and directory push/pop notifications are balanced. Histories with a rejected push are a recorded known finding (the notifications become unbalanced), demonstrated natively against the real gix-fs as well. The suite's only stack test never rejects a push.",
+        "text": "gix_fs::Stack over real std::path cannot be executed symbolically within reach (measured). The check therefore compiles the verbatim source text of stack.rs - re-read from /repo on every run - against a 100-line shim in which a path is a short sequence of component ids, and the solver explores every history of up to 2 calls over all such paths: after each successful call the current path is the last one and directory push/pop notifications are balanced. Histories with a rejected push are a recorded known finding (the notifications become unbalanced), demonstrated natively against the real gix-fs as well. The suite's only stack test never rejects a push.",
         "note": "Level 'other': sliced-source bounded model checking. Trusted: Kani/CBMC/CaDiCaL; the std::path shim; the textual extraction. Rejection histories are a known finding, not a pass.",
         "technique": "bounded model checking (Kani -> CBMC -> CaDiCaL) of stack.rs' verbatim source compiled against a std::path shim; histories symbolic",
     },
